@@ -306,6 +306,17 @@ impl Database {
 
     /// Runs WAL recovery to restore database to consistent state.
     fn run_recovery(&self) -> DatabaseResult<()> {
+        // Transaction ids handed out since the last checkpoint are known only to the log (page zero is
+        // written at checkpoints): make sure none of them is issued again, starting with the recovery
+        // transaction itself, whose id would otherwise equal the id of a transaction found in the log.
+        let analysis = self.pager.write().run_analysis()?;
+        if let Some(max_tid) = analysis.lsn_chains.keys().max().copied() {
+            let mut pager = self.pager.write();
+            if pager.get_last_created_transaction() <= max_tid {
+                pager.set_last_created_transaction(max_tid + 1);
+            }
+        }
+
         let (tx_ctx, logger) = Self::begin_transaction(
             self.coordinator.clone(),
             self.pager.clone(),
@@ -316,9 +327,6 @@ impl Database {
         // Begin a recovery transaction
         self.task_runner.run(move |ctx| {
             let mut recuperator = WalRecuperator::new(child, logger.clone());
-
-            // Run analysis INSIDE the closure using the cloned pager
-            let analysis = pager.write().run_analysis().map_err(box_err)?;
 
             // Run recovery through recuperator
             recuperator.run_recovery(&analysis).map_err(box_err)?;
